@@ -382,5 +382,43 @@ def r16_12(ctx):
     delegate(ctx, c05.r05_4, lambda c: '_restore_default' in c)
 
 
+def r16_13(ctx):
+    """R16.13 set_value() refuses a value for its form only: every `return False` of Symbol.set_value() stands under the failed
+    form check (`value_is_valid`) - not under anything evaluated at the moment of the call (ranges, visibility). The loader
+    feeds the lines of a file through set_value() one by one and records the on-disk baseline only when it returns True: a
+    value that is out of range *while the file is half loaded* would lose its baseline, and needs_save() is true right after
+    loading a file the tool wrote. Also: `y` / `n` are converted to 2 / 0 for bool options only (a string option may hold `y`)."""
+    repo = ctx.repo
+    f = repo.func(f"{CORE}:Symbol.set_value")
+    ctx.analysed(f.qual)
+    fl = Flow(f.node, resolver=Resolver(f.node)).run()
+    rets = [n for n in ast.walk(f.node) if isinstance(n, ast.Return) and isinstance(n.value, ast.Constant) and n.value.value is False]
+    if not rets:
+        raise AnchorError("Symbol.set_value: no `return False`")
+    for i, r in enumerate(rets):
+        construct = f"Symbol.set_value/`return False` #{i + 1} is the failed form check"
+        gs = fl.guards_at(r) or set()
+        ok = any(("value_is_valid(" in k and not p) for k, p in gs)
+        in_loop = any(isinstance(p_, (ast.For, ast.While)) for p_ in _up(repo, r))
+        (ctx.ok(construct, f.loc(r)) if ok and not in_loop else
+         ctx.bad(construct, f"the value is refused under {sorted(k for k, p in gs if p)[:3] or 'a condition evaluated at call time'}: whether an assignment of a file is accepted "
+                 "depends on what was loaded before it - no baseline is recorded for it and the session is dirty right after loading", f.loc(r)))
+    conv = [n for n in ast.walk(f.node) if isinstance(n, ast.Assign) and "STR_TO_BOOL[" in ast.unparse(n.value)]
+    construct = "Symbol.set_value/`y` and `n` are read as 2 and 0 for bool options only"
+    if not conv:
+        raise AnchorError("Symbol.set_value: STR_TO_BOOL conversion not found")
+    gs = fl.guards_at(conv[0]) or set()
+    ok = any(k in ("self.orig_type == BOOL", "self.orig_type is BOOL") and p for k, p in gs)
+    (ctx.ok(construct, f.loc(conv[0])) if ok else
+     ctx.bad(construct, "the text `y` / `n` of a string (or number) option becomes the int 2 / 0, fails the form check and is dropped - the dialog's validator accepts it", f.loc(conv[0])))
+
+
+def _up(repo, n):
+    p = repo.parent(n)
+    while p is not None:
+        yield p
+        p = repo.parent(p)
+
+
 def rules():
-    return [("R16.12", r16_12, 8), ("R16.11", r16_11, 5), ("R16.10", r16_10, 2), ("R16.9", r16_9, 2), ("R16.8", r16_8, 2), ("R16.7", r16_7, 3), ("R16.1", r16_1, 2), ("R16.2", r16_2, 11), ("R16.3", r16_3, 3), ("R16.4", r16_4, 2), ("R16.5", r16_5, 6), ("R16.6", r16_6, 4)]
+    return [("R16.13", r16_13, 2), ("R16.12", r16_12, 8), ("R16.11", r16_11, 5), ("R16.10", r16_10, 2), ("R16.9", r16_9, 2), ("R16.8", r16_8, 2), ("R16.7", r16_7, 3), ("R16.1", r16_1, 2), ("R16.2", r16_2, 11), ("R16.3", r16_3, 3), ("R16.4", r16_4, 2), ("R16.5", r16_5, 6), ("R16.6", r16_6, 4)]
